@@ -18,8 +18,8 @@ empty; `next(stream)` = tail, a no-op at EOF):
 * `liquid/builtin/tags/case_tag.py` (`parseCase`, `caseLoop`): the junk-skipping loop after `case`, the
                       `while not endcase` loop — the loop of the 2.2.1 `{% case %}` hang.
 * `for_tag.py`, `capture_tag.py` (`parseFor`, `parseSimpleBlock`), `comment_tag.py`, `doc_tag.py` (`docScan`),
-  `liquid_tag.py` (`parseLiquid`: `parse_block` on the same stream up to EOF, or on the stream of the tag's own
-  line tokens, carried by the token as `inner`), `assign_tag.py`, `for_tag.BreakTag`, `builtin/illegal.py`,
+  `liquid_tag.py` (`parseLiquid`, as fixed by eb7b1a1: no expression → empty block and nothing consumed; else
+  `parse_block` on the stream of the tag's own line tokens, carried by the token as `inner`), `assign_tag.py`, `for_tag.BreakTag`, `builtin/illegal.py`,
   `builtin/output.py`, `builtin/content.py`.
 
 Abstracted: token values other than tag names; expressions are assumed well-formed when present (a *missing*
@@ -224,7 +224,10 @@ def getNode (cfg : Cfg) (d : Nat) (t : Tok) (r : List Tok) : Res (t :: r) :=
     else if n == "case" then recover cfg (some "endcase") ((parseCase cfg d r).lift (wl_le_cons _ _)) "case"
     else if n == "for" then recover cfg (some "endfor") ((parseFor cfg d r).lift (wl_le_cons _ _)) "for"
     else if n == "capture" then recover cfg (some "endcapture") ((parseCapture cfg d r).lift (wl_le_cons _ _)) "capture"
-    else if n == "liquid" then recover cfg none ((parseLiquid cfg d r).lift (wl_le_cons _ _)) "liquid"
+    else if n == "liquid" then
+      -- `LiquidTag.parse` (repo fix eb7b1a1): `expect(TOKEN_TAG)`; no expression next → empty block, nothing consumed
+      if headIsExpr r then recover cfg none ((parseLiquid cfg d r).lift (wl_le_cons _ _)) "liquid"
+      else ⟨ok ["liquid", "(", ")"] (.tag n :: r) d 0, Nat.le_refl _⟩
     else if n == "comment" then
       -- `{% comment %}` as a tag: scan to `endcomment`; EOF raises
       recover cfg (some "endcomment")
@@ -407,19 +410,15 @@ def parseCapture (cfg : Cfg) (d : Nat) (r : List Tok) : Res r :=
 termination_by (wl r, 3)
 decreasing_by parse_dec
 
-/-- `LiquidTag.parse` after `stream.eat(TOKEN_TAG)` -/
+/-- `LiquidTag.parse` after `next(stream)` moved to the expression token -/
 def parseLiquid (cfg : Cfg) (d : Nat) (r : List Tok) : Res r :=
   match r with
-  | [] => ⟨ok ["(", ")"] [] d 0, Nat.le_refl _⟩                           -- empty liquid tag
-  | .tag n :: r1 =>
-    match parseBlock cfg [] d (.tag n :: r1) with                           -- the same stream, up to EOF
-    | ⟨b, hb⟩ => ⟨b, hb⟩
   | .expr inner :: r1 =>
     -- a new stream of the tag's own line tokens, `block_depth_carry=stream.block_depth`; the outer stream stays
     -- on the expression token and keeps its depth
     match parseBlock cfg [] d inner with
     | ⟨b, _⟩ => ⟨{ b with rest := .expr inner :: r1, depth := d }, Nat.le_refl _⟩
-  | t :: r1 => ⟨failed .syntax (t :: r1) d 0, Nat.le_refl _⟩             -- expect(TOKEN_EXPRESSION)
+  | rest => ⟨failed .syntax rest d 0, Nat.le_refl _⟩                      -- expect(TOKEN_EXPRESSION) (not reached: the caller looked)
 termination_by (wl r, 7)
 decreasing_by parse_dec
 end
